@@ -28,16 +28,83 @@ def _graph_from(n, mask, allow_self=True):
 
 
 def _name(fn):
-    return fn.qualified_name_without_version.split(":")[1]
+    return fn.qualified_name_without_version.split(":")[-1]
 
 
-def _check_static(n, kinds, adj, forms_mode):
-    forms = [[FORMS[forms_mode] if forms_mode < 4 else FORMS[(i + 2 * j) % 4] for j in range(n)] for i in range(n)]
-    src = gen_graph_source(n, kinds, adj, forms, module=MOD)
+PLACEMENTS = ["module", "package-init", "submodule", "spread"]
+# "spread": node i lives in module [vppk/__init__, vppk.a, vppk.b][i % 3] of ONE package; the other nodes' names are imported into each
+# module (as `from .x import n<j>` would do) - helpers of the same package are in scope wherever in the package they are defined
+MIXED = len(FORMS)  # forms_mode == MIXED: a different form per edge
+
+
+def _program_for(placement):
+    """where the generated code lives: a top-level module, the __init__ of a package, or a submodule of a package"""
+    import sys
+    import types
+
+    if placement == "module":
+        return Program(MOD), MOD
+    if placement == "package-init":
+        p = Program("vppk", package="vppk")
+        p.mod.__path__ = []
+        return p, "vppk"
+    parent = types.ModuleType("vppk")
+    parent.__package__ = "vppk"
+    parent.__path__ = []
+    sys.modules["vppk"] = parent
+    p = Program("vppk.sub", package="vppk")
+    return p, "vppk.sub"
+
+
+class _Spread:
+    """Facade over three Program objects (package __init__ and two submodules)."""
+
+    NAMES = ["vppk", "vppk.a", "vppk.b"]
+
+    def __init__(self, n, src_by_node, head):
+        self.progs = [Program(nm, package="vppk") for nm in self.NAMES]
+        self.progs[0].mod.__path__ = []
+        self.trace = self.progs[0].trace
+        for p in self.progs[1:]:
+            p.trace = self.trace
+            p.mod.__dict__["_trace"] = self.trace
+        for k, p in enumerate(self.progs):
+            p.exec(head.replace("'vpgraph'", repr(self.NAMES[k])))
+        for i in range(n):
+            self.progs[i % 3].exec(src_by_node[i])
+        # `from .x import n<j>` in every module
+        for i in range(n):
+            obj = getattr(self.progs[i % 3].mod, "n%d" % i)
+            for p in self.progs:
+                p.mod.__dict__.setdefault("n%d" % i, obj)
+
+    def __getattr__(self, k):
+        for p in self.__dict__["progs"]:
+            if k in p.mod.__dict__:
+                return p.mod.__dict__[k]
+        raise AttributeError(k)
+
+    def close(self):
+        for p in self.progs:
+            p.close()
+
+
+def _check_static(n, kinds, adj, forms_mode, placement="module"):
+    forms = [[FORMS[forms_mode] if forms_mode < MIXED else FORMS[(i + 2 * j) % len(FORMS)] for j in range(n)] for i in range(n)]
     sb = Sandbox(kinds="memory")
-    prog = Program(MOD)
+    if placement == "spread":
+        from obligations.c03 import _chunks
+
+        full = gen_graph_source(n, kinds, adj, [["bare"] * n for _ in range(n)], module="vpgraph")
+        ch = _chunks(full)
+        prog = _Spread(n, ch, ch["head"])
+        src = None
+    else:
+        prog, modname = _program_for(placement)
+        src = gen_graph_source(n, kinds, adj, forms, module=modname)
     try:
-        prog.exec(src)
+        if src is not None:
+            prog.exec(src)
         for i in range(n):
             if kinds[i] != "m":
                 continue
@@ -50,7 +117,7 @@ def _check_static(n, kinds, adj, forms_mode):
             exp_d = sorted("n%d" % j for j in range(n) if adj[i][j] and kinds[j] == "m" and j != i)
             check("direct-memento-dependencies-are-exactly-those-named-in-the-body", got_d == exp_d, (i, got_d, exp_d))
             df = deps.df()
-            got_e = sorted((r["src"].split(":")[1], r["target"].split(":")[1]) for _, r in df.iterrows())
+            got_e = sorted((r["src"].split(":")[-1], r["target"].split(":")[-1]) for _, r in df.iterrows())
             exp_e = set()
             todo, seen = [i], set()
             while todo:
@@ -74,6 +141,9 @@ def _check_static(n, kinds, adj, forms_mode):
             prog.n0(0)
     finally:
         prog.close()
+        import sys
+
+        sys.modules.pop("vppk", None)
         sb.close()
 
 
@@ -81,22 +151,26 @@ def _check_static(n, kinds, adj, forms_mode):
     "C14.closure_n3",
     covers=("has-transitive-deps", "indirect-dep", "cycle", "plain-node"),
     split={"kmask": list(range(8))},
-    tier_split={"quick": {"forms_mode": [0, 4]}, "thorough": {"forms_mode": [0, 1, 2, 3, 4]}},
+    tier_split={"quick": {"fp": [(0, 0), (MIXED, 0), (MIXED, 1), (0, 3)]},
+                "thorough": {"fp": [(f, p) for f in range(MIXED + 1) for p in range(3)] + [(0, 3)]}},
     bounds="ALL reference graphs over 3 nodes (2^9 adjacency matrices incl. self loops and cycles) x all 8 kind assignments {memento, plain} "
-           "x reference-form modes (quick: bare name, mixed per edge; thorough also: module.attr, alias, decorator-wrapped throughout)",
+           "x reference-form modes {bare name, module.attr, alias, decorator-wrapped, bare name also bound in a nested lambda / def, mixed per "
+           "edge} x placement of the code {top-level module, package __init__, submodule of a package, nodes spread over the __init__ and two "
+           "submodules of one package} (quick: bare+module, mixed+module, mixed+package __init__, bare+spread; thorough: all 19 combinations)",
     variables="choice: adjacency mask (9 bits), kinds (3 bits), form mode",
     budget_s={"quick": 170, "thorough": 600},
     choice_vars=3,
 )
-def closure_n3(amask: int, kmask: int, forms_mode: int):
+def closure_n3(amask: int, kmask: int, fp: tuple):
     amask = _bits(amask, 9)
+    forms_mode, pl = fp
     with concrete_region():
         kinds = ["m" if (kmask >> i) & 1 else "p" for i in range(3)]
         if "p" in kinds:
             cover("plain-node")
         adj = _graph_from(3, amask)
         note((kinds, adj))
-        _check_static(3, kinds, adj, forms_mode)
+        _check_static(3, kinds, adj, forms_mode, PLACEMENTS[pl])
 
 
 @obligation(
@@ -117,7 +191,7 @@ def closure_n4(lo: int, hi: int, kmask: int):
         if "p" in kinds:
             cover("plain-node")
         adj = _graph_from(4, amask, allow_self=False)
-        _check_static(4, kinds, adj, 4)
+        _check_static(4, kinds, adj, MIXED)
 
 
 @obligation(
